@@ -517,4 +517,80 @@ def lockEvents : List Ev → List LEv
   | .release :: t => .rel :: lockEvents t
   | .call .. :: t => lockEvents t
 
+/-! ### the lock protocol and N threads sharing the two provider locks -/
+
+/-- where a thread is in the lock protocol of `SQLiteProvider.acquire_lock` / `release_lock` -/
+inductive Phase
+  | idle      -- holds nothing
+  | hasPre    -- holds pre_transaction_lock, is about to take transaction_lock
+  | hasBoth   -- holds both, is about to release pre_transaction_lock
+  | hasTx     -- holds transaction_lock
+  deriving DecidableEq, Repr
+
+def Phase.step : Phase → LEv → Option Phase
+  | .idle, .preAcq => some .hasPre
+  | .hasPre, .acq => some .hasBoth
+  | .hasBoth, .preRel => some .hasTx
+  | .hasTx, .rel => some .idle
+  | _, _ => none
+
+/-- the phase reached by a chronological list of lock events (`none`: the protocol was violated) -/
+def Phase.run : Phase → List LEv → Option Phase
+  | ph, [] => some ph
+  | ph, e :: es => match ph.step e with
+    | some ph' => Phase.run ph' es
+    | none => none
+
+namespace Interleave
+
+/-- a thread: where it is in the lock protocol, and the lock events it will still perform (DB-API calls in between are
+    always enabled and do not touch the locks, so they are left out) -/
+structure Thread where
+  phase : Phase
+  rest : List LEv
+  deriving Repr
+
+/-- the two `threading.Lock`s and the threads -/
+structure World where
+  pre : Bool
+  tx : Bool
+  threads : List Thread
+  deriving Repr
+
+def Thread.WB (t : Thread) : Prop := Phase.run t.phase t.rest = some .idle
+def Thread.holdsPre (t : Thread) : Bool := t.phase == .hasPre || t.phase == .hasBoth
+def Thread.holdsTx (t : Thread) : Bool := t.phase == .hasBoth || t.phase == .hasTx
+
+/-- thread `i` performs its next lock event.  `none`: the thread has finished, or blocks in `acquire()` (lock taken), or
+    the step is an error (release of an unlocked lock / an event outside the protocol). -/
+def step (w : World) (i : Nat) : Option World :=
+  match w.threads[i]? with
+  | none => none
+  | some t =>
+    match t.rest with
+    | [] => none
+    | e :: r =>
+      match t.phase.step e with
+      | none => none
+      | some ph =>
+        let ts := w.threads.set i ⟨ph, r⟩
+        match e with
+        | .preAcq => if w.pre then none else some { w with pre := true, threads := ts }
+        | .acq => if w.tx then none else some { w with tx := true, threads := ts }
+        | .preRel => if w.pre then some { w with pre := false, threads := ts } else none
+        | .rel => if w.tx then some { w with tx := false, threads := ts } else none
+
+/-- run a schedule (list of thread indices); steps that are not enabled are skipped (the thread keeps waiting) -/
+def runSchedule (w : World) : List Nat → World
+  | [] => w
+  | i :: is => match step w i with
+    | some w' => runSchedule w' is
+    | none => runSchedule w is
+
+/-- all threads idle with protocol-conforming futures, both locks free -/
+def initial (sessions : List (List LEv)) : World :=
+  { pre := false, tx := false, threads := sessions.map (fun evs => ⟨.idle, evs⟩) }
+
+end Interleave
+
 end PonyVerif.Model.ConnLock
